@@ -8,6 +8,7 @@
 package table
 
 import (
+	"math"
 	"time"
 
 	"github.com/named-data/ndnd/fw/core"
@@ -76,6 +77,11 @@ func Configure() {
 
 // SetCsCapacity sets the CS capacity from management.
 func SetCsCapacity(capacity int) {
+	if capacity < 0 {
+		// Management carries the capacity as a uint64; a value >= 2^63 arrives here as a negative int.
+		// Treat it as "unlimited": with a negative limit EvictEntries would run past the empty queue.
+		capacity = math.MaxInt
+	}
 	csCapacity = capacity
 }
 
